@@ -2,7 +2,9 @@
 //! failing input for the replay file): every octet string of at most 7 octets over the octets that matter to the
 //! name parser (label lengths 0, 1, 2, 63, the reserved type 0x40, pointers 0xC0/0xC1 and a letter), parsed as a
 //! possibly compressed name at every offset. A panic, a read that makes no progress for 10 s, or a parsed name whose
-//! own views disagree (labels forwards / backwards / flattened / flat slice / length) is the failing input.
+//! own views disagree (labels forwards / backwards / flattened / flat slice / length) is the failing input. Then every
+//! message with section counts 0..=2 and a body of at most 5 such octets is walked twice (questions, the three record
+//! sections, all records, OPT, CNAME chain): no panic, no hang, same result both times.
 use domain::base::name::{Label, Name, ParsedName, ToLabelIter, ToName};
 use octseq::parse::Parser;
 use std::sync::atomic::{AtomicU64, Ordering};
@@ -62,6 +64,51 @@ fn check(buf: &[u8], pos: usize) -> Result<(), String> {
     Ok(())
 }
 
+/// every read-side walk over a small message terminates and agrees with itself when repeated
+fn check_message(msg: &[u8]) -> Result<(), String> {
+    use domain::base::Message;
+    let m = match Message::from_slice(msg) {
+        Ok(m) => m,
+        Err(_) => return Ok(()),
+    };
+    let walk = |m: &Message<[u8]>| -> Vec<String> {
+        let mut out = Vec::new();
+        let mut n = 0;
+        for q in m.question() {
+            n += 1;
+            if n > 70000 {
+                out.push("question iterator yields more than 65535 items".into());
+                return out;
+            }
+            out.push(match q { Ok(q) => format!("q {}", q.qname()), Err(_) => "q err".into() });
+        }
+        out.push(format!("answer {:?}", m.answer().map(|s| s.count()).ok()));
+        out.push(format!("authority {:?}", m.authority().map(|s| s.count()).ok()));
+        out.push(format!("additional {:?}", m.additional().map(|s| s.count()).ok()));
+        let mut n = 0;
+        for r in m.iter() {
+            n += 1;
+            if n > 200000 {
+                out.push("record iterator yields more than 3 * 65535 items".into());
+                return out;
+            }
+            out.push(match r { Ok((r, sec)) => format!("{:?} {} {}", sec, r.owner(), r.rtype()), Err(_) => "r err".into() });
+        }
+        out.push(format!("opt {}", m.opt().is_some()));
+        out.push(format!("cname {:?}", m.canonical_name().map(|n| n.to_string())));
+        out.push(format!("first q {:?}", m.first_question().map(|q| q.qtype())));
+        out
+    };
+    let (a, b) = (walk(m), walk(m));
+    if a != b {
+        return Err("walking the message twice gives different results".into());
+    }
+    if let Some(l) = a.iter().find(|l| l.contains("more than")) {
+        return Err(l.clone());
+    }
+    Ok(())
+}
+
 fn main() {
     std::panic::set_hook(Box::new(|_| {}));
     let progress = Arc::new(AtomicU64::new(0));
@@ -97,6 +144,38 @@ fn main() {
                 }
             }
         }
+        // small messages: every combination of section counts 0..=2 with every body of at most 5 octets
+        for counts in 0..81usize {
+            let c = [counts % 3, counts / 3 % 3, counts / 9 % 3, counts / 27 % 3];
+            for len in 0..=5usize {
+                let total = k.pow(len as u32);
+                for mut idx in 0..total {
+                    let mut msg = vec![0u8; 12];
+                    for (i, v) in c.iter().enumerate() {
+                        msg[5 + 2 * i] = *v as u8;
+                    }
+                    for _ in 0..len {
+                        msg.push(ALPHABET[idx % k]);
+                        idx /= k;
+                    }
+                    *c2.lock().unwrap() = (msg.clone(), usize::MAX);
+                    p2.fetch_add(1, Ordering::SeqCst);
+                    let m2 = msg.clone();
+                    match std::panic::catch_unwind(move || check_message(&m2)) {
+                        Ok(Ok(())) => {}
+                        Ok(Err(e)) => {
+                            *f2.lock().unwrap() = Some((msg, usize::MAX, e));
+                            return;
+                        }
+                        Err(e) => {
+                            let e = e.downcast_ref::<String>().cloned().or_else(|| e.downcast_ref::<&str>().map(|s| s.to_string())).unwrap_or_default();
+                            *f2.lock().unwrap() = Some((msg, usize::MAX, format!("PANIC: {}", e)));
+                            return;
+                        }
+                    }
+                }
+            }
+        }
     });
     let (mut last, mut stalled) = (0, 0);
     loop {
@@ -109,7 +188,7 @@ fn main() {
             stalled += 1;
             if stalled >= 50 {
                 let (buf, pos) = current.lock().unwrap().clone();
-                println!("FAILING INPUT: octets {:02x?}, name parsed/iterated at offset {}", buf, pos);
+                if pos == usize::MAX { println!("FAILING INPUT: message octets {:02x?}", buf); } else { println!("FAILING INPUT: octets {:02x?}, name parsed/iterated at offset {}", buf, pos); }
                 println!("no progress for 10 s: the operation does not terminate");
                 std::process::exit(1);
             }
@@ -119,7 +198,7 @@ fn main() {
         }
     }
     if let Some((buf, pos, msg)) = failed.lock().unwrap().clone() {
-        println!("FAILING INPUT: octets {:02x?}, name parsed/iterated at offset {}", buf, pos);
+        if pos == usize::MAX { println!("FAILING INPUT: message octets {:02x?}", buf); } else { println!("FAILING INPUT: octets {:02x?}, name parsed/iterated at offset {}", buf, pos); }
         println!("{}", msg);
         std::process::exit(1);
     }
